@@ -5,6 +5,7 @@ import VlsModel.Gen.FnHmacRs
 import VlsModel.Gen.FnLssUtil
 import VlsModel.Gen.FnLssFront
 import VlsModel.Gen.FnVlsdStore
+import VlsModel.Gen.FnPersistDummy
 import VlsModel.Lemmas.FnGen
 /-
 C17 — the hand-written HMAC-input model (`Model/Hmac.lean`: `encRec`, `encShared`, `sharedTag`, `valueTag`, `Helper`,
@@ -715,5 +716,63 @@ theorem C17_fn_rs_store_with_client {P : Type} (chm : FnVlsdStore.ExternalPersis
   | true => simp [bind, Except.bind, pure, Except.pure]
   | false =>
     cases hp : put client muts (chm helper muts) <;> simp [hp, bind, Except.bind, pure, Except.pure, Except.map]
+
+/-! ### The rest of `persist/mod.rs` that is inside the translator's subset (no clause of C16/C17 rests on these; they are
+stated so that what the file's stand-in persisters do is read off the current source rather than assumed)
+
+`DummyPersister` accepts every write and stores nothing (every read is empty; `signer_id` is `unimplemented!()`);
+`DummySeedPersister` stores nothing; `MemorySeedPersister` holds exactly the seed it was made with and refuses `put`
+(`unimplemented!()`); the `Persist` defaults never ask for an initial restore or a recovery. -/
+
+open VlsModel.Gen.FnPersistDummy in
+theorem C17_fn_persist_default_on_initial_restore {S : Type} (s : S) : Persist.on_initial_restore s = false := rfl
+open VlsModel.Gen.FnPersistDummy in
+theorem C17_fn_persist_default_recovery_required {S : Type} (s : S) : Persist.recovery_required s = false := rfl
+open VlsModel.Gen.FnPersistDummy in
+theorem C17_fn_dummy_new_node {S A B C : Type} (s : S) (a : A) (b : B) (c : C) : DummyPersister.new_node s a b c = .ok () := rfl
+open VlsModel.Gen.FnPersistDummy in
+theorem C17_fn_dummy_update_node {S A B : Type} (s : S) (a : A) (b : B) : DummyPersister.update_node s a b = .ok () := rfl
+open VlsModel.Gen.FnPersistDummy in
+theorem C17_fn_dummy_delete_node {S A : Type} (s : S) (a : A) : DummyPersister.delete_node s a = .ok () := rfl
+open VlsModel.Gen.FnPersistDummy in
+theorem C17_fn_dummy_new_channel {S A B : Type} (s : S) (a : A) (b : B) : DummyPersister.new_channel s a b = .ok () := rfl
+open VlsModel.Gen.FnPersistDummy in
+theorem C17_fn_dummy_delete_channel {S A B : Type} (s : S) (a : A) (b : B) : DummyPersister.delete_channel s a b = .ok () := rfl
+open VlsModel.Gen.FnPersistDummy in
+theorem C17_fn_dummy_new_tracker {S A B : Type} (s : S) (a : A) (b : B) : DummyPersister.new_tracker s a b = .ok () := rfl
+open VlsModel.Gen.FnPersistDummy in
+theorem C17_fn_dummy_update_tracker {S A B : Type} (s : S) (a : A) (b : B) : DummyPersister.update_tracker s a b = .ok () := rfl
+open VlsModel.Gen.FnPersistDummy in
+theorem C17_fn_dummy_update_channel {S A B : Type} (s : S) (a : A) (b : B) : DummyPersister.update_channel s a b = .ok () := rfl
+open VlsModel.Gen.FnPersistDummy in
+theorem C17_fn_dummy_get_node_channels {S A I E : Type} (s : S) (a : A) :
+    DummyPersister.get_node_channels (ChannelId := I) (ChannelEntry := E) s a = .ok [] := rfl
+open VlsModel.Gen.FnPersistDummy in
+theorem C17_fn_dummy_update_node_allowlist {S A : Type} (s : S) (a : A) (l : List String) :
+    DummyPersister.update_node_allowlist s a l = .ok () := rfl
+open VlsModel.Gen.FnPersistDummy in
+theorem C17_fn_dummy_get_node_allowlist {S A : Type} (s : S) (a : A) : DummyPersister.get_node_allowlist s a = .ok [] := rfl
+open VlsModel.Gen.FnPersistDummy in
+theorem C17_fn_dummy_get_nodes {S P E : Type} (s : S) : DummyPersister.get_nodes (PublicKey := P) (NodeEntry := E) s = .ok [] := rfl
+open VlsModel.Gen.FnPersistDummy in
+theorem C17_fn_dummy_clear_database {S : Type} (s : S) : DummyPersister.clear_database s = .ok () := rfl
+open VlsModel.Gen.FnPersistDummy in
+theorem C17_fn_dummy_signer_id {S : Type} (s : S) : DummyPersister.signer_id s = .error .panic := rfl
+open VlsModel.Gen.FnPersistDummy in
+theorem C17_fn_dummyseed_put {S : Type} (s : S) (k : String) (x : List Nat) : DummySeedPersister.put s k x = () := rfl
+open VlsModel.Gen.FnPersistDummy in
+theorem C17_fn_dummyseed_get {S : Type} (s : S) (k : String) : DummySeedPersister.get s k = none := rfl
+open VlsModel.Gen.FnPersistDummy in
+theorem C17_fn_dummyseed_list {S : Type} (s : S) : DummySeedPersister.list s = [] := rfl
+open VlsModel.Gen.FnPersistDummy in
+theorem C17_fn_memseed_new (seed : List Nat) : (MemorySeedPersister.new seed).seed = seed := rfl
+open VlsModel.Gen.FnPersistDummy in
+theorem C17_fn_memseed_put (s : MemorySeedPersister) (k : String) (x : List Nat) : s.put k x = .error .panic := rfl
+open VlsModel.Gen.FnPersistDummy in
+theorem C17_fn_memseed_get (s : MemorySeedPersister) (k : String) : s.get k = some s.seed := rfl
+open VlsModel.Gen.FnPersistDummy in
+theorem C17_fn_memseed_list (s : MemorySeedPersister) : s.list = [] := rfl
+open VlsModel.Gen.FnPersistDummy in
+theorem C17_fn_simple_entropy_new : SimpleEntropy.new = ({} : SimpleEntropy) := rfl
 
 end VlsModel.Props.C17Fn
